@@ -450,6 +450,10 @@ func tryReplay(w *World, o checkOpts, ob *Obligation) *ReplayResult {
 // runOverlayTest injects test source into pkgDir (hiding the package's own
 // test files, several of which do not compile at the pinned commit) and runs it.
 func runOverlayTest(o checkOpts, pkgDir, src, name string) (string, error) {
+	return runOverlayTestNamed(o, pkgDir, src, name, "TestGocvReplay")
+}
+
+func runOverlayTestNamed(o checkOpts, pkgDir, src, name, testName string) (string, error) {
 	tmp := filepath.Join(o.verif, ".cache", "replay", sanitize(name))
 	os.MkdirAll(tmp, 0o755)
 	tf := filepath.Join(tmp, "zz_gocv_replay_test.go")
@@ -467,7 +471,7 @@ func runOverlayTest(o checkOpts, pkgDir, src, name string) (string, error) {
 	ov, _ := json.Marshal(map[string]interface{}{"Replace": repl})
 	ovf := filepath.Join(tmp, "overlay.json")
 	os.WriteFile(ovf, ov, 0o644)
-	cmd := exec.Command("go", "test", "-overlay", ovf, "-vet=off", "-count=1", "-timeout", "60s", "-run", "TestGocvReplay", "-v", ".")
+	cmd := exec.Command("go", "test", "-overlay", ovf, "-vet=off", "-count=1", "-timeout", "60s", "-run", testName, "-v", ".")
 	cmd.Dir = pkgDir
 	cmd.Env = append(os.Environ(), "GOFLAGS=-mod=mod", "GOPROXY=off")
 	out, err := cmd.CombinedOutput()
